@@ -400,21 +400,27 @@ func (m *StateMachine) initializeRLC(ctx context.Context) (rlc tsi.RoundLifecycl
 		// It is remotely possible, at startup,
 		// that we have recorded a proposed header to the action store
 		// but did not successfully send it to the mirror.
-		if rlc.ProposalCh != nil {
-			ra, err := m.aStore.LoadActions(ctx, rlc.H, rlc.R)
-			if err != nil && !errors.Is(err, tmconsensus.RoundUnknownError{
-				WantHeight: rlc.H,
-				WantRound:  rlc.R,
-			}) {
-				m.log.Error(
-					"Failed to load existing actions during startup",
-					"height", rlc.H,
-					"round", rlc.R,
-					"err", err,
-				)
-				return rlc, false
-			}
+		// And if we restart in a round in which we already voted,
+		// the recorded votes are the only votes we may ever cast in this round.
+		ra, err := m.aStore.LoadActions(ctx, rlc.H, rlc.R)
+		if err != nil && !errors.Is(err, tmconsensus.RoundUnknownError{
+			WantHeight: rlc.H,
+			WantRound:  rlc.R,
+		}) {
+			m.log.Error(
+				"Failed to load existing actions during startup",
+				"height", rlc.H,
+				"round", rlc.R,
+				"err", err,
+			)
+			return rlc, false
+		}
 
+		if !m.resendRecordedVotes(ctx, &rlc, ra) {
+			return rlc, false
+		}
+
+		if rlc.ProposalCh != nil {
 			if ra.ProposedHeader.Header.Height != 0 {
 				// We had a header in our recorded actions,
 				// but it wasn't part of the round view that the mirror sent us.
@@ -466,6 +472,55 @@ func (m *StateMachine) initializeRLC(ctx context.Context) (rlc tsi.RoundLifecycl
 	return rlc, ok
 }
 
+// resendRecordedVotes is called at startup with the actions recorded for the round being entered.
+//
+// A recorded prevote or precommit is the state machine's vote for this round:
+// it is sent to the mirror again (the mirror may not have received it before the process stopped),
+// exactly as recorded and without involving the signer,
+// and the corresponding result channel is cleared, as it is after recording a vote in a live round,
+// so that the consensus strategy is not asked for a second choice.
+func (m *StateMachine) resendRecordedVotes(
+	ctx context.Context, rlc *tsi.RoundLifecycle, ra tmstore.RoundActions,
+) (ok bool) {
+	if rlc.OutgoingActionsCh == nil || ra.PubKey == nil || !ra.PubKey.Equal(m.signer.PubKey()) {
+		// Not participating, or nothing recorded under our current key.
+		return true
+	}
+
+	if ra.PrevoteSignature != "" {
+		vt := tmconsensus.VoteTarget{Height: rlc.H, Round: rlc.R, BlockHash: ra.PrevoteTarget}
+		signContent, err := tmconsensus.PrevoteSignBytes(vt, m.finalizer.SigScheme)
+		if err != nil {
+			glog.HRE(m.log, rlc.H, rlc.R, err).Error("Failed to build sign bytes for recorded prevote")
+			return false
+		}
+		rlc.PrevoteHashCh = nil
+		// The OutgoingActionsCh is 3-buffered so we assume this will never block.
+		rlc.OutgoingActionsCh <- tmeil.StateMachineRoundAction{
+			Prevote: tmeil.ScopedSignature{
+				TargetHash: ra.PrevoteTarget, SignContent: signContent, Sig: []byte(ra.PrevoteSignature),
+			},
+		}
+	}
+
+	if ra.PrecommitSignature != "" {
+		vt := tmconsensus.VoteTarget{Height: rlc.H, Round: rlc.R, BlockHash: ra.PrecommitTarget}
+		signContent, err := tmconsensus.PrecommitSignBytes(vt, m.finalizer.SigScheme)
+		if err != nil {
+			glog.HRE(m.log, rlc.H, rlc.R, err).Error("Failed to build sign bytes for recorded precommit")
+			return false
+		}
+		rlc.PrecommitHashCh = nil
+		rlc.OutgoingActionsCh <- tmeil.StateMachineRoundAction{
+			Precommit: tmeil.ScopedSignature{
+				TargetHash: ra.PrecommitTarget, SignContent: signContent, Sig: []byte(ra.PrecommitSignature),
+			},
+		}
+	}
+
+	return true
+}
+
 // beginRoundLive updates some fields on rlc,
 // makes appropriate calls into the consensus strategy based on the initVRV value,
 // and starts any necessary timers.
@@ -483,6 +538,11 @@ func (m *StateMachine) beginRoundLive(
 	// Only calculate the step if we are dealing with a round view,
 	// not if we have a committed block.
 	curStep := tsi.GetStepFromVoteSummary(initVRV.VoteSummary)
+	if curStep == tsi.StepAwaitingProposal && rlc.PrevoteHashCh == nil {
+		// Our prevote for this round is already recorded (we restarted in the round),
+		// so we are where recording the prevote left us: awaiting prevotes, without a proposal timer.
+		curStep = tsi.StepAwaitingPrevotes
+	}
 	switch curStep {
 	case tsi.StepAwaitingProposal:
 		// Only send the filtered proposed blocks.
@@ -503,13 +563,8 @@ func (m *StateMachine) beginRoundLive(
 		}
 
 	case tsi.StepAwaitingPrevotes:
-		// See comments in GetStepFromVoteSummary.
-		// If above minority prevotes but below majority,
-		// we will just wait for a proposal as normal.
-		// At worse, we time out on the proposal and prevote nil.
-		panic(errors.New(
-			"BUG: tsi.GetStepFromVoteSummary must not return tsi.StepAwaitingPrevotes",
-		))
+		// tsi.GetStepFromVoteSummary never returns this step (see the comments there);
+		// we only get here with an already recorded prevote, and then there is nothing to request.
 
 	case tsi.StepAwaitingPrecommits:
 		if !gchan.SendC(
